@@ -30,14 +30,14 @@ def translate(ctx):
     src = core.REPO / "src/fdtdx/objects/object.py"
     tr = DT.TrLoop(subs={"self._grid_slice_tuple": "axis_of self", "other._grid_slice_tuple": "axis_of other"})
     text = DT.translate_method(src, "SimulationObject.check_overlap", "gen_check_overlap", "(self other : box)", "bool", ["self", "other"], tr)
-    g = core.COQ / "gen" / "Gen_C29.v"
+    g = core.gen_path("Gen_C29")
     g.parent.mkdir(exist_ok=True)
     head = "From Coq Require Import ZArith List Bool.\nFrom FV Require Import base.PyNum model.DeviceOverlap.\nOpen Scope Z_scope.\n" + text
     g.write_text(head + "Lemma gen_eq_model : forall a b, gen_check_overlap a b = check_overlap a b.\nProof. reflexivity. Qed.\n")
     ok, out, err = core.coqc(g)
     msg = err or "gen = model (reflexivity)"
     if not ok:
-        g2 = core.COQ / "gen" / "Gen_C29_old.v"
+        g2 = core.gen_path("Gen_C29_old")
         g2.write_text(head + "Lemma gen_eq_old : forall a b, gen_check_overlap a b = check_overlap_src_old a b.\nProof. reflexivity. Qed.\n")
         ok2, _, _ = core.coqc(g2)
         for ext in (".v", ".vo", ".glob", ".vok", ".vos"):
